@@ -503,8 +503,14 @@ func exhaustiveC17(thorough bool, emit func(C17Case) bool) {
 		if i%2 == 0 {
 			size = n + 16
 		}
-		c := C17Case{Kind: "sketch", Seqs: []gen.B{gen.B("ACGTTGCAAT"), s}, K: []int{5, 21, 31}[i%3], N: size, RC: []bool{false, true}, CaseMode: 2, Rot: 1, Dup: 0, SplitAt: n / 3, Partition: []int{1}, N2: 7}
+		c := C17Case{Kind: "sketch", Seqs: []gen.B{gen.B("ACGTTGCAAT"), s}, K: []int{5, 16, 21, 31, 32, 48}[i%6], N: size, RC: []bool{false, true}, CaseMode: 2, Rot: 1, Dup: 0, SplitAt: n / 3, Partition: []int{1}, N2: 7}
 		if !emit(c) {
+			return
+		}
+	}
+	// every k from 1 to 70 on one real-data-shaped sequence (k-mer lengths around the block sizes of hash functions)
+	for k := 1; k <= 70; k++ {
+		if !emit(C17Case{Kind: "sketch", Seqs: []gen.B{realDNA(300, k, true, true), gen.B("ACGTTGCAAT")}, K: k, N: 400, RC: []bool{true}, CaseMode: 1, Partition: []int{1}, N2: 3}) {
 			return
 		}
 	}
